@@ -1,0 +1,71 @@
+//go:build verif
+
+package ast
+
+// Contracts for the AST package (used by the compiler's stack-height proof, C04).
+
+// ---- pure interface methods (every implementation only reads the tree) -------------------------------
+
+//@ func (Node).String
+//@ trusted
+//@ modifies nothing
+
+//@ func (Node).Literal
+//@ trusted
+//@ modifies nothing
+
+// IsExpression: characterised over the real method bodies by the harness verifIsExpression below.
+//@ func (Node).IsExpression
+//@ trusted
+//@ modifies nothing
+//@ ensures result == (implements(self, Expression) && !(typeof(self) == *Func && self.(*Func).name != nil))
+
+func verifIsExpression(n Node) bool { return n.IsExpression() }
+
+//@ func verifIsExpression
+//@ props C04
+//@ dispatch *Assign *Block *Bool *Call *Case *Const *Control *Defer *Float *For *ForIn *FromImport *Func *GetAttr *Go *Ident *If *Import *In *Index *Infix *Int *List *Map *MultiVar *Nil *NotIn *ObjectCall *Pipe *Postfix *Prefix *Program *Range *Receive *Return *Send *Set *SetAttr *Slice *String *Switch *Ternary *Var
+//@ requires n != nil && ref(n) != nil
+//@ requires oneof(typeof(n), *Assign, *Block, *Bool, *Call, *Case, *Const, *Control, *Defer, *Float, *For, *ForIn, *FromImport, *Func, *GetAttr, *Go, *Ident, *If, *Import, *In, *Index, *Infix, *Int, *List, *Map, *MultiVar, *Nil, *NotIn, *ObjectCall, *Pipe, *Postfix, *Prefix, *Program, *Range, *Receive, *Return, *Send, *Set, *SetAttr, *Slice, *String, *Switch, *Ternary, *Var)
+//@ ensures[C04.isexpr] result == (implements(n, Expression) && !(typeof(n) == *Func && n.(*Func).name != nil))
+
+// ---- accessors with loops (assumed read-only) -----------------------------------------------------------
+
+//@ func (*MultiVar).Value
+//@ trusted
+//@ modifies nothing
+//@ ensures result1 == s.value
+
+// ---- C05: map literals are enumerated in source order -------------------------------------------------------
+// SortedKeys: the result enumerates the keys of the literal exactly once, sorted by the character offset of
+// their first token. Together with "distinct keys of one literal start at distinct offsets" (a parser fact,
+// not proved here) the result is a function of the literal, independent of Go's map iteration order.
+// Assumed: Token() is a function of the node (nodes are immutable after parsing); sort.SliceStable permutes
+// its slice and leaves it sorted by the comparison (engine model, the comparison itself is checked: sortby).
+//@ func (Node).Token
+//@ trusted
+//@ modifies nothing
+//@ ensures result.StartPosition.Char == uf("ast.startchar", int, self)
+
+//@ spec startchar(n) = uf("ast.startchar", int, n)
+
+//@ func (*Map).SortedKeys
+//@ props C05
+//@ requires m != nil
+//@ assume[ast.items.nonnil] forallT(k, Expression, haskey(m.items, k) ==> k != nil)
+//@ modifies nothing
+//@ invariant 1: len(keys) == iter && fresh(keys) && forall(j, 0, len(keys), keys[j] != nil && haskey(m.items, keys[j]) && seen(keys[j])) && forall(i, 0, len(keys), forall(j, i + 1, len(keys), keys[i] != keys[j]))
+//@ sortby[C05.astkeys.less] 1: startchar(keys[i]) < startchar(keys[j])
+//@ ensures[C05.astkeys.sorted] forall(i, 0, len(result), forall(j, i, len(result), startchar(result[i]) <= startchar(result[j])))
+//@ ensures[C05.astkeys.members] forall(j, 0, len(result), result[j] != nil && haskey(m.items, result[j]))
+//@ ensures[C05.astkeys.distinct] forall(i, 0, len(result), forall(j, i + 1, len(result), result[i] != result[j]))
+//@ ensures[C05.astkeys.all] len(result) == len(m.items) && fresh(result)
+
+// Dispositions of the map-range loops of this package: (*Map).SortedKeys#1 feeds a slice that is sorted by
+// source position (a total order on the keys of one literal) before it is used.
+//@ scan[C05.maploops.ast] C05 maprange ast: (*Map).SortedKeys#1
+
+// C14: the value of a String node and the path of an Import node are set when the node is built and never
+// written again (so the parser's token-advancing functions cannot change a validated path).
+//@ scan[C14.string.value.writers] C14 fieldwriters String.value: NewString NewTemplatedString
+//@ scan[C14.import.path.writers] C14 fieldwriters Import.path: NewImport
